@@ -228,7 +228,13 @@ def mutate(spec: dict, kind: str, n: int) -> tuple[dict, dict, bool]:
             if cn in ("LeafA", "LeafB", "SubLeafA", "Falsy", "Mixed", "InhMixed"):
                 variants.append((x, "v", 1, True))
                 variants.append((x, "v", 0, False))
+            if cn in ("LeafA", "LeafB", "Mixed"):
+                # an IntEnum member / an instance of an int subclass against the plain int of the same value
+                variants.append((x, "v", 1, {"$ie": "LOW"}))
+                variants.append((x, "v", 7, {"$is": 7}))
             if cn == "Vals":
+                variants.append((x, "i", 2, {"$ie": "HIGH"}))
+                variants.append((x, "t", {"$t": [1, 7]}, {"$t": [{"$ie": "LOW"}, 7]}))
                 variants.append((x, "i", 1, True))
                 variants.append((x, "t", {"$t": [1]}, {"$t": [True]}))
                 variants.append((x, "o", 0, False))
